@@ -168,7 +168,15 @@ impl PhysicalOperator for MorselAggregateExec {
         let input_types: Vec<DataType> = self
             .aggregates
             .iter()
-            .map(|a| a.input.data_type(&plan_schema).unwrap_or(DataType::Float64))
+            .enumerate()
+            .map(|(i, a)| {
+                let out = self
+                    .schema
+                    .fields()
+                    .get(self.group_by.len() + i)
+                    .map(|f| f.data_type());
+                crate::physical::morsel_agg::agg_input_type(&a.input, &a.func, &plan_schema, out)
+            })
             .collect();
 
         // One worker per row group at most: after pruning, a selective scan can
@@ -435,7 +443,12 @@ impl MorselAggregateExec {
                     e => kinds.push((DenseAgg::Count, Some(e.clone()))),
                 },
                 AggregateFunction::Sum | AggregateFunction::Avg => {
-                    let dt = a.input.data_type(&plan_schema).unwrap_or(DataType::Float64);
+                    // Unresolvable argument type (qualified / aliased name): leave
+                    // this fast path instead of guessing Float64, which failed
+                    // later with "dense agg: expected Float64" on BIGINT inputs.
+                    let Ok(dt) = a.input.data_type(&plan_schema) else {
+                        return Ok(None);
+                    };
                     let k = match (&a.func, &dt) {
                         (AggregateFunction::Sum, DataType::Float64) => DenseAgg::SumF64,
                         (AggregateFunction::Sum, DataType::Int64) => DenseAgg::SumI64,
